@@ -61,12 +61,13 @@ type handler1 struct {
 	// for testing
 	mockupDialFunc func() net.Conn
 
-	// provisionalTopicIDs holds the TopicIDs registered for a SUBSCRIBE
-	// which the broker has not acknowledged yet. If the broker refuses the
-	// subscription, such a TopicID is removed again - unless the client
-	// has got it confirmed some other way (REGACK) in the meantime.
-	// uint16 => struct{}
-	provisionalTopicIDs sync.Map
+	// provisionalTopicIDs holds the TopicIDs registered only for SUBSCRIBE
+	// packets which the broker has not acknowledged yet, with the number
+	// of these pending subscriptions. If the broker refuses the last of
+	// them, the TopicID is removed again - unless the client has got it
+	// confirmed (accepted SUBACK, REGACK) in the meantime.
+	provisionalTopicIDs      map[uint16]int
+	provisionalTopicIDsMutex sync.Mutex
 
 	// brokerTransactions holds the exchanges started by the MQTT broker
 	// (broker PUBLISH incl. its REGISTER step). The broker and the client
@@ -597,12 +598,57 @@ func (h *handler1) newTopicID() (uint16, error) {
 	}
 }
 
+// provisionalTopicIDAdd notes one more pending subscription relying on a
+// TopicID which the client has not got confirmed yet.
+func (h *handler1) provisionalTopicIDAdd(topicID uint16) {
+	h.provisionalTopicIDsMutex.Lock()
+	defer h.provisionalTopicIDsMutex.Unlock()
+	if h.provisionalTopicIDs == nil {
+		h.provisionalTopicIDs = make(map[uint16]int)
+	}
+	h.provisionalTopicIDs[topicID]++
+}
+
+// provisionalTopicIDIs reports whether the TopicID is still provisional.
+func (h *handler1) provisionalTopicIDIs(topicID uint16) bool {
+	h.provisionalTopicIDsMutex.Lock()
+	defer h.provisionalTopicIDsMutex.Unlock()
+	_, ok := h.provisionalTopicIDs[topicID]
+	return ok
+}
+
+// provisionalTopicIDConfirm is called when the client gets the TopicID
+// confirmed: it is not provisional anymore.
+func (h *handler1) provisionalTopicIDConfirm(topicID uint16) {
+	h.provisionalTopicIDsMutex.Lock()
+	defer h.provisionalTopicIDsMutex.Unlock()
+	delete(h.provisionalTopicIDs, topicID)
+}
+
+// provisionalTopicIDRefuse is called when a subscription relying on the
+// TopicID was refused. It reports whether the TopicID must be unregistered
+// (it was provisional and this was the last subscription relying on it).
+func (h *handler1) provisionalTopicIDRefuse(topicID uint16) bool {
+	h.provisionalTopicIDsMutex.Lock()
+	defer h.provisionalTopicIDsMutex.Unlock()
+	n, ok := h.provisionalTopicIDs[topicID]
+	if !ok {
+		return false
+	}
+	if n > 1 {
+		h.provisionalTopicIDs[topicID] = n - 1
+		return false
+	}
+	delete(h.provisionalTopicIDs, topicID)
+	return true
+}
+
 func (h *handler1) registerTopic(topic string) (uint16, error) {
 	// If already registered, return existing TopicID.
 	if topicID, ok := h.findRegisteredTopicID(topic); ok {
 		// The client gets this TopicID confirmed by REGACK now: it must
 		// survive even if a pending subscription is refused.
-		h.provisionalTopicIDs.Delete(topicID)
+		h.provisionalTopicIDConfirm(topicID)
 		return topicID, nil
 	}
 	// The gateway itself is just registering the topic at the client.
@@ -718,6 +764,12 @@ func (h *handler1) handleSubscribe(ctx context.Context, snSubscribe *snPkts1.Sub
 			// topic name the gateway and the client could pick
 			// different ones for the following PUBLISH packets.
 			topicID = registeredID
+			if h.provisionalTopicIDIs(topicID) {
+				// registered for another SUBSCRIBE which is still
+				// pending: this one relies on it too
+				h.provisionalTopicIDAdd(topicID)
+				topicIDIsNew = true
+			}
 		} else if pendingID, ok := h.pendingTopicIDs.Load(topic); ok {
 			// The same holds for a topic which the gateway itself
 			// is just registering at the client.
@@ -727,7 +779,7 @@ func (h *handler1) handleSubscribe(ctx context.Context, snSubscribe *snPkts1.Sub
 			// be registered already): if the broker refuses the
 			// subscription, the registration must not stay.
 			topicIDIsNew = true
-			h.provisionalTopicIDs.Store(topicID, struct{}{})
+			h.provisionalTopicIDAdd(topicID)
 		} else if !hasWildcard(topic) {
 			var err error
 			topicID, err = h.newTopicID()
@@ -746,7 +798,7 @@ func (h *handler1) handleSubscribe(ctx context.Context, snSubscribe *snPkts1.Sub
 			// [MQTT v.5.0, chapter 3.8.4 SUBSCRIBE Actions]
 			h.registeredTopics.Store(topicID, topic)
 			topicIDIsNew = true
-			h.provisionalTopicIDs.Store(topicID, struct{}{})
+			h.provisionalTopicIDAdd(topicID)
 		}
 		// topicID remains zero if client is subscribing to a wildcard topic.
 	case snPkts1.TIT_PREDEFINED:
